@@ -255,6 +255,7 @@ def catalog():
         ("mean_grp", "int", lambda da, aux: da.hdc.algo.mean_grp(grp)),
         ("rolling_sum", "int", lambda da, aux: da.hdc.rolling.sum(3)),
         ("anom_ratio", "int", lambda da, aux: da.hdc.anom.ratio(da.isel(time=0), offset=1)),
+        ("zonal_mean_f64", "int", lambda da, aux: da.hdc.zonal.mean(aux["zones"], [0, 1, 2], dtype="float64")),
         ("autocorr_nd0", "int0", lambda da, aux: da.hdc.algo.autocorr()),
         ("mktrend_nd0", "int0", lambda da, aux: da.hdc.algo.mktrend()),
         ("rolling_sum_nd0", "int0", lambda da, aux: da.hdc.rolling.sum(3)),
@@ -341,7 +342,7 @@ def blocked_cases(rep, quick, seed):
         flat = da.stack(p=("y", "x")).isel(p=perm)
         dperm = xr.DataArray(flat.data.reshape(T, ny, nx), dims=("time", "y", "x"), coords={"time": da.time, "y": da.y, "x": da.x}, attrs=da.attrs)
         aperm = {k: xr.DataArray(np.asarray(v).reshape(-1)[perm].reshape(ny, nx), dims=("y", "x"), coords={"y": da.y, "x": da.x}, attrs=v.attrs) for k, v in aux.items()}
-        if name != "zonal_mean":
+        if not name.startswith("zonal_mean"):
             runs.append(attempt(dperm, aperm, "permuted-pixels", "perm", unperm=perm))
         else:
             runs.append(attempt(dperm, aperm, "permuted-pixels", "perm"))
